@@ -30,13 +30,17 @@ Theorem C09_history_equals_fresh :
 Proof. intros app h ts. apply history_as_fresh. Qed.
 Print Assumptions C09_history_equals_fresh.
 
-(* After any history the per-request objects still reachable from the
-   application belong to at most 1 + |errors_map| requests, whatever the length
-   of the history: the request in the thread's request cell (the last one), and
-   for each shared error object the last request that made it raise. *)
+(* After any history the requests some of whose objects (environ, input stream,
+   buffered body) may still be reachable from the application number at most
+   1 + 2 x |errors_map|, whatever the length of the history: the request in the
+   thread's request cell (the last one) and, per shared error object, the request
+   whose frames are in its __traceback__ (the last one that made it raise, F12)
+   and the request whose exception is its __context__ (the last one that made it
+   raise from inside an except block: "raise" outside an except block leaves
+   __context__ as it is). *)
 Theorem C09_retention_bounded :
   forall app h,
-    length (alive (snd (run app (ts_fresh app) h))) <= 1 + a_shared app
+    length (alive (snd (run app (ts_fresh app) h))) <= 1 + 2 * a_shared app
     /\ (forall r, t_req (snd (run app (ts_fresh app) (h ++ [r]))) = Some r).
 Proof. intros app h. split; [apply retention_bounded|intros r; apply alive_req_last]. Qed.
 Print Assumptions C09_retention_bounded.
@@ -61,14 +65,14 @@ Proof. intros n. exists grow_app. exact (F12_variant_unbounded n). Qed.
 Print Assumptions C09_F12_retention_refuted.
 
 (* non-vacuity: a history cookie-setter / undecodable path / oversized body on one thread.
-   The 400 for the bad path has no Set-Cookie; the shared 413 error keeps request 2 alive. *)
+   The 400 for the bad path has no Set-Cookie; the shared 413 error keeps request 2 alive (traceback and context). *)
 Definition demo_app : app_static :=
   mkApp (fun rq _ =>
            if Nat.eqb (q_id rq) 0
            then (mkProg [] [] (ROk [] (mkH [MSetCookie (lit "sid") (lit "sid=secret123")] (HRet (OStr (lit "ok"))))), [])
            else (mkProg [] [] (ROk [] (mkH [] (HRaiseHttp true
                    (mkResp 413 (lit "413 Request Entity Too Large") [] [] (OStr (lit "Request entity too large"))
-                           (lit "Request entity too large") None (lit """None""") false)))), [1]))
+                           (lit "Request entity too large") None (lit """None""") false)))), [(1, true)]))
         (fun _ => None) 3.
 Example C09_nonvacuous :
   let h := [mkReq 0 (lit "/a") false false false [] [] false;
@@ -80,7 +84,7 @@ Example C09_nonvacuous :
       In (EvStart (lit "200 OK") [(lit "Content-Length", lit "2"); (lit "Content-Type", lit "text/html; charset=UTF-8");
                                   (lit "Set-Cookie", lit "sid=secret123")] false) r0
       /\ (exists hl, hd EvRouted r1 = EvStart (lit "400 Bad Request") hl false /\ ~ In (lit "Set-Cookie") (map fst hl))
-      /\ alive ts = [2; 2] /\ t_tb ts = [[]; [2]; []]
+      /\ alive ts = [2; 2; 2] /\ t_tb ts = [([], None); ([2], Some 2); ([], None)]
   | _ => False
   end.
 Proof.
